@@ -173,6 +173,10 @@ func mergeKnobs(parent, k Knobs) Knobs {
 		k.TreeEvery = parent.TreeEvery
 	}
 	k.ForceFlush = k.ForceFlush || parent.ForceFlush
+	if k.FlushMargin == 0 {
+		k.FlushMargin = parent.FlushMargin
+	}
+	k.CacheOnly = k.CacheOnly || parent.CacheOnly
 	return k
 }
 
@@ -561,6 +565,9 @@ func (t *timeline) run() {
 		every = 1
 	}
 	lastStmt := -1
+	if p.Knobs.CacheOnly {
+		t.unmodelled = true
+	}
 	for i := range p.Stmts {
 		if t.stop || w.Viol != nil {
 			break
@@ -576,7 +583,11 @@ func (t *timeline) run() {
 			w.Advance(d.Ms)
 		}
 		if p.Knobs.ForceFlush {
-			if d, _, c := w.Dirty(); c > 0 && d >= c-10 {
+			margin := p.Knobs.FlushMargin
+			if margin <= 0 {
+				margin = 10
+			}
+			if d, _, c := w.Dirty(); c > 0 && d >= c-margin {
 				w.count("forced_flush")
 				w.Advance(tickPeriodMs)
 			}
@@ -625,6 +636,15 @@ func (t *timeline) run() {
 			break
 		}
 		if w.Viol != nil {
+			break
+		}
+		if w.Stats["lru_refuse"] > 0 && w.Viol == nil {
+			// the cache refused a page: dirty pages filled it (ticks withheld).
+			// The cache monitor has checked the refusal itself; what the engine
+			// does after ErrLRUCacheFull is outside every listed property.
+			t.r.res.Abandoned = "precondition: page cache refused a page (full of dirty pages)"
+			w.count("abandoned_cache_refused")
+			t.stop = true
 			break
 		}
 		// ---- outcome ----
@@ -748,7 +768,14 @@ func (t *timeline) run() {
 				}
 			}
 			if only != "-" {
-				if mm := w.compareDB(w.Sess.RelationService, db, only, true); mm != nil && w.Viol == nil {
+				mm := w.compareDB(w.Sess.RelationService, db, only, true)
+				if mm != nil && w.Viol == nil && w.Stats["lru_refuse"] > 0 {
+					t.r.res.Abandoned = "precondition: page cache refused a page during an observer query"
+					w.count("abandoned_cache_refused")
+					t.stop = true
+					break
+				}
+				if mm != nil && w.Viol == nil {
 					feat := map[string]string{"how": "contents", "class": mm.kind}
 					if !exp.OK {
 						feat["after"] = "refused-" + s.Kind
